@@ -231,8 +231,7 @@ CLAIMS = {
              "substr test are byte-exact prefix tests for all strings; one theorem per call site composes them; the "
              "case-sensitivity flag is regenerated from a live connection. Correspondence runs every call site of the "
              "implementation on adversarial label sets against the model; the range bounds of every target directory are among the "
-             "outputs; the project root as a directory target ('./') is stated separately by the oracle (three known findings: "
-             "the directory-target sites select nothing for it).",
+             "outputs; the project root as a directory target ('./') selects every label (site_target_dir; fix ce0f3bf).",
         note=BASE_NOTE + "Modelled, not verified: SQLite LIKE/BINARY collation/substr, Path(p)/'' and str.startswith "
              "(validated against SQLite/Python on generated inputs). File labels never end in '/'.",
         technique="Lean 4 proof over a hand-written model + regenerated table + differential correspondence",
